@@ -2,7 +2,10 @@
 //! SimWriter under short writes and not-ready results, and the body's streaming encoder into a
 //! SimSink under short writes and EINTR.
 
+use std::future::Future;
 use std::panic::AssertUnwindSafe;
+use std::pin::Pin;
+use std::task::{Context, Poll};
 
 use mqtt_proto::VarBytes;
 
@@ -50,17 +53,52 @@ pub fn gen(rng: &mut Rng, tier: Tier, idx: u64) -> Case {
     gen::maybe_retarget_props(rng, sw.fam, &mut a, 40);
     let len = refcodec::ref_body_len(&a, sw.fam) + 5;
     c.packets = vec![a];
+    if rng.chance(1, 4) {
+        // a second packet, encoded by a second task on the same thread while the first is suspended
+        let b = gen::gen_packet(rng, &sw);
+        c.packets.push(b);
+    }
     let pp = *rng.pick(&[0u64, 100, 500, 1000]);
     let ep = *rng.pick(&[0u64, 100, 400]);
     let (ws, tail) = gen_write_script(rng, len, pp, ep);
     c.write_script = ws;
     c.write_tail = tail;
-    c.writer_style = rng.below(2) as u8;
+    c.writer_style = gen_writer_style(rng);
     c
 }
 
 pub fn run(c: &Case, trace: bool) -> RunOut {
     dispatch!(c.fam, run_g(c, trace))
+}
+
+/// Minimal join of two futures: both are polled on every wake-up until each has finished.
+struct Join2<'a, T> {
+    a: Pin<Box<dyn Future<Output = T> + 'a>>,
+    b: Pin<Box<dyn Future<Output = T> + 'a>>,
+    ra: Option<T>,
+    rb: Option<T>,
+}
+
+impl<T: Unpin> Future for Join2<'_, T> {
+    type Output = (T, T);
+    fn poll(self: Pin<&mut Self>, cx: &mut Context<'_>) -> Poll<(T, T)> {
+        let this = self.get_mut();
+        if this.ra.is_none() {
+            if let Poll::Ready(x) = this.a.as_mut().poll(cx) {
+                this.ra = Some(x);
+            }
+        }
+        if this.rb.is_none() {
+            if let Poll::Ready(x) = this.b.as_mut().poll(cx) {
+                this.rb = Some(x);
+            }
+        }
+        if this.ra.is_some() && this.rb.is_some() {
+            Poll::Ready((this.ra.take().unwrap(), this.rb.take().unwrap()))
+        } else {
+            Poll::Pending
+        }
+    }
 }
 
 pub fn varbytes_inner(v: &VarBytes) -> Vec<u8> {
@@ -136,6 +174,58 @@ fn run_g<C: Codec>(c: &Case, trace: bool) -> RunOut {
         }
         for v in core.borrow().sim_violations.iter().filter(|v| v.contains(crate::sim::LOST_WAKE)) {
             out.violate(sig("async-hang"), v.clone());
+        }
+    }
+    // two encoder tasks interleaved on one thread (joined: each is polled whenever the other is
+    // suspended on its sink): each sink must still receive exactly its own packet
+    if let Some(a2) = c.packets.get(1) {
+        if let (Some(p2), true) = (C::from_ast(a2), bytes.len() < (1 << 20)) {
+            if let Ok(Ok(vb)) = guarded(|| C::encode(&p2)) {
+                let bytes2 = vb.as_ref().to_vec();
+                let core = Core::new(trace);
+                let mut w1 = SimWriter::new(&core, c.write_script.clone());
+                w1.tail = c.write_tail;
+                // the second sink follows the same script read backwards: its suspensions fall elsewhere
+                let mut rev = c.write_script.clone();
+                rev.reverse();
+                let mut w2 = SimWriter::new(&core, rev);
+                w2.tail = c.write_tail;
+                let cap = (4 * (bytes.len() + bytes2.len() + 2 * c.write_script.len()) + 128) as u32;
+                let r = guarded(AssertUnwindSafe(|| {
+                    let mut ex = Exec::new(&core, cap);
+                    let mut fut = Join2 {
+                        a: Box::pin(async { C::encode_async(&p, &mut w1).await.map_err(|e| format!("{e:?}")) }),
+                        b: Box::pin(async { C::encode_async(&p2, &mut w2).await.map_err(|e| format!("{e:?}")) }),
+                        ra: None,
+                        rb: None,
+                    };
+                    ex.run(Pin::new(&mut fut))
+                }));
+                out.absorb_core(&core, trace);
+                out.evals += 1;
+                out.probe("two-encoders-interleaved");
+                match r {
+                    Ok(Ok((Ok(()), Ok(())))) => {
+                        for (i, (got, want)) in [(&w1.accepted, &bytes), (&w2.accepted, &bytes2)].into_iter().enumerate() {
+                            if got != want {
+                                out.violate(
+                                    sig("interleaved-bytes"),
+                                    format!(
+                                        "two encode_async tasks interleaved on one thread: sink {} received {} bytes that differ from encode() of its packet ({} bytes); first difference at {:?}\n  other packet: {a2:?}",
+                                        i + 1,
+                                        got.len(),
+                                        want.len(),
+                                        got.iter().zip(want.iter()).position(|(x, y)| x != y)
+                                    ),
+                                );
+                            }
+                        }
+                    }
+                    Ok(Ok((x, y))) => out.violate(sig("interleaved-err"), format!("interleaved encode_async failed on sinks that only delay and shorten writes: {x:?} / {y:?}")),
+                    Ok(Err(_)) => out.violate(sig("interleaved-stuck"), "interleaved encode_async made no progress within the poll cap".to_string()),
+                    Err(m) => out.violate(sig("interleaved-panic"), format!("interleaved encode_async panicked: {m}\n  other packet: {a2:?}")),
+                }
+            }
         }
     }
     // streaming body encoder into a sync sink with short writes and EINTR
